@@ -264,6 +264,9 @@ theorem execOp_S {s : State} {me : Nat} (op : Op) (rest : List Op) (h : InvS s) 
   | cancel t =>
     simp only [execOp]
     exact post_finish _ _ _ (cancelR_S t h) (cancelR_run t hr)
+  | resume t =>
+    simp only [execOp]
+    exact post_finish _ _ _ ((Woke.resume s t).invS h) ((Woke.resume s t).run hr)
   | exit =>
     simp only [execOp]
     exact ⟨h, fun _ => hr⟩
